@@ -23,7 +23,7 @@ INVARIANTS = ['TypeOK', 'InvNoCoreShared', 'InvGpuShareBound', 'InvLfsBound', 'I
 PROPERTIES = ['ActColo', 'ActRestores', 'ActNoFalseFailure', 'ActPriorityWins']
 
 DEVS = ['DevNoLfsCheck', 'DevFracSameGpu', 'DevSuppliedUnmarked', 'DevRanksFallthrough',
-        'DevFracDownRaises']
+        'DevFracDownRaises', 'DevNoWakeOnRelease']
 
 # which property an invariant of the design model belongs to
 OWNER = {'InvNoCoreShared': 'C01', 'InvGpuShareBound': 'C01', 'InvLfsBound': 'C01',
@@ -113,7 +113,7 @@ def tla_placement(sup):
     return '<<' + ', '.join(out) + '>>'
 
 
-def mc_files(lay, shapes, cancelable, devs=(), maxbatch=2, invariants=None, props=None):
+def mc_files(lay, shapes, cancelable, devs=(), maxbatch=2, invariants=None, props=None, fair=False):
     uids = sorted(shapes)
     case_sh  = ' [] '.join('t = "%s" -> %s' % (u, tla_shape(shapes[u])) for u in uids)
     case_sup = ' [] '.join('t = "%s" -> %s' % (u, tla_placement(shapes[u]['supplied'])) for u in uids)
@@ -129,7 +129,7 @@ def mc_files(lay, shapes, cancelable, devs=(), maxbatch=2, invariants=None, prop
             ' Cancelable <- MCCanc\n MaxBatch = %d\n' % maxbatch)
     for d in DEVS:
         cfg += ' %s = %s\n' % (d, 'TRUE' if d in devs else 'FALSE')
-    cfg += 'SPECIFICATION Spec\nCHECK_DEADLOCK FALSE\n'
+    cfg += 'SPECIFICATION %s\nCHECK_DEADLOCK FALSE\n' % ('FairLive' if fair else 'Spec')
     for i in (INVARIANTS if invariants is None else invariants):
         cfg += 'INVARIANT %s\n' % i
     for p in (PROPERTIES if props is None else props):
@@ -213,7 +213,7 @@ def random_case(rng, with_supplied=True):
 
 
 # ------------------------------------------------------------------------------
-SUPPLIED = 'application-supplied slots (td.slots branch of _schedule_incoming)'
+SUPPLIED = 'application-supplied slots (task description carries slots)'
 
 
 def classify(trace, clause):
@@ -243,17 +243,35 @@ def run(chk, tier, seed):
                             % (res.violated, name, res.trace[:3000]))
     chk.exhaustive = True
 
+    # ---- 1b. liveness of the design model (C04, no starvation): weak fairness of the
+    #          loop and of every completion; whole state graph, no state constraint
+    if pid == 'C04':
+        for name, lay, shapes, canc in (SCENARIOS[:3] if quick else SCENARIOS):
+            res = tlc.run('AgentSched', 'MC', 'MC.cfg', workers=16, timeout=1500,
+                          extra_files=mc_files(lay, shapes, canc, invariants=['TypeOK'], fair=True,
+                                               props=['LiveNoStarve', 'LiveReleased']))
+            chk.add_tlc(res, 'liveness:' + name)
+            if not res.ok:
+                raise Machinery('design model AgentSched violates %s in scenario %s under fairness:\n%s'
+                                % (res.violated, name, res.trace[:3000]))
+
     # ---- 2. deviation sensitivity (non-vacuity of the model's invariants) -------
     if not quick:
         expect = [('DevNoLfsCheck', 'lfs-prio', 'InvLfsBound'),
                   ('DevFracSameGpu', 'gpu-share', 'InvGpuShareBound'),
                   ('DevSuppliedUnmarked', 'supplied', None),
                   ('DevRanksFallthrough', 'invalid', None),
-                  ('DevFracDownRaises', 'blocked', 'ActNoFalseFailure')]
+                  ('DevFracDownRaises', 'blocked', 'ActNoFalseFailure'),
+                  ('DevNoWakeOnRelease', 'lfs-prio', 'LiveNoStarve')]
         for dev, sname, inv in expect:
             _, lay, shapes, canc = [s for s in SCENARIOS if s[0] == sname][0]
+            if inv.startswith('Live') if inv else False:
+                files = mc_files(lay, shapes, canc, devs=[dev], invariants=['TypeOK'], fair=True,
+                                 props=['LiveNoStarve', 'LiveReleased'])
+            else:
+                files = mc_files(lay, shapes, canc, devs=[dev])
             res = tlc.run('AgentSched', 'MC', 'MC.cfg', workers=16, timeout=900,
-                          extra_files=mc_files(lay, shapes, canc, devs=[dev]))
+                          extra_files=files)
             chk.add_tlc(res, 'deviation:' + dev)
             if res.ok or (inv and res.violated != inv):
                 raise Machinery('deviation %s not detected by the model (got %s)'
